@@ -362,6 +362,16 @@ func (w *World) proposalConditions(verifier *Node, h int64, pv *cmttypes.Validat
 	if blockMsgs != 1 || first == nil {
 		return false, fmt.Sprintf("%d block messages, first-and-alone=%v", blockMsgs, first != nil)
 	}
+	proposerNow := w.Members[0].Addr()
+	if cur := w.view(); cur != nil {
+		proposerNow = cur.Relayer.Relayer.Proposer
+	}
+	for i, raw := range txs[1:] {
+		tx, _ := w.decodeTx(raw)
+		if ok, why := w.admissible(tx, proposerNow, h, true, false); !ok {
+			return false, fmt.Sprintf("transaction %d is not admissible: %s", i+1, why)
+		}
+	}
 	if ok, why := w.blockMessageConditions(h, pv, first); !ok {
 		return false, why
 	}
@@ -528,6 +538,19 @@ func (w *World) checkHonestProposalShape(n *Node, txs [][]byte, faulted bool) {
 	}
 	if len(txs) == 16 {
 		w.probe("proposal-at-cap")
+	}
+	if cur := w.view(); cur != nil && len(txs) > 1 {
+		for i, raw := range txs[1:] {
+			w.Stats.OracleEvals["C10"]++
+			tx, err := w.decodeTx(raw)
+			if err != nil {
+				w.violate("C10", "undecodable-proposed", "undecodable", "node %d proposed bytes that do not decode as a transaction at position %d", n.ID, i+1)
+				continue
+			}
+			if ok, why := w.admissible(tx, cur.Relayer.Relayer.Proposer, w.Cmt.Height+1, false, false); !ok {
+				w.violate("C10", "inadmissible-tx-proposed", why, "node %d put a transaction into its proposal (position %d, %s) although: %s", n.ID, i+1, txSummary(w, raw), why)
+			}
+		}
 	}
 	if w.payloadTimestamp(txs) == 0 {
 		// goat-geth refuses to build on a parent whose timestamp is not in the past (which is why
